@@ -2,11 +2,14 @@
 C11 — literals have the C11 value, type and encoding.
 
 Property theorems only (helper lemmas: Lemmas/LiteralsLemmas, LiteralsReaderLemmas, TextLemmas, C11Splice, C11Locality,
-C11SpliceEol, C11Translated, C11Readers, C11Rewrite).  The left-hand sides are the
+C11SpliceEol, C11Translated, C11Readers, C11Rewrite, C11PpInt, C11PpNumber, C11Phases).  The left-hand sides are the
 functions translated from unicode.c / tokenize.c / type.c on every check run
-(Gen/LiteralsGen.lean: codecs, ladders, tables; Gen/LitReadersGen.lean: the reader functions and the in-place phase loops)
+(Gen/LiteralsGen.lean: codecs, ladders, tables; Gen/LitReadersGen.lean: the reader functions and the in-place phase loops;
+Gen/PpNumGen.lean: `convert_pp_int` as a whole with libc `strtoul` as a parameter, the pp-number arm of `tokenize()`, the body of
+`tokenize_file` from clang's AST)
 and the hand model of the readers (Model/Literals.lean, Model/Text.lean), which `C11_translated_readers`,
-`C11_translated_literal_readers` and `C11_translated_phases` prove equal to the translated functions;
+`C11_translated_literal_readers`, `C11_translated_phases`, `C11_translated_int`, `C11_translated_ppnumber` and `C11_phase_order`
+prove equal to the translated functions;
 the right-hand sides are Spec/LiteralsSpec.lean (C11 5.1.1.2, 6.4.4, 6.4.5, Annex D; RFC 3629; RFC 2781).
 
 Identification used throughout: chibicc has no `long long` distinct from `long`
@@ -23,6 +26,9 @@ import ChibiVerif.Lemmas.C11Translated
 import ChibiVerif.Lemmas.C11Rewrite
 import ChibiVerif.Lemmas.C11Readers
 import ChibiVerif.Lemmas.C11SpliceEol
+import ChibiVerif.Lemmas.C11PpInt
+import ChibiVerif.Lemmas.C11PpNumber
+import ChibiVerif.Lemmas.C11Phases
 
 set_option linter.unusedSimpArgs false
 
@@ -41,6 +47,8 @@ open ChibiVerif.Lemmas.ReadersT
 open ChibiVerif.Lemmas.SpliceEol
 open ChibiVerif.LitReaders
 open ChibiVerif.Text
+open ChibiVerif.PpNumber
+open ChibiVerif.Spec.PpNumber (PPNumber isLetter)
 
 -- ------------------------------------------------------------------ integer constants (6.4.4.1)
 
@@ -87,44 +95,98 @@ theorem C11_int_type_excluded (s : Suffix) (v : BitVec 64) (hs : s.hasU = false)
 example : (2 : Nat) ^ 63 ≤ (9223372036854775808#64).toNat := by decide
 
 /-- **C11 (integer suffixes).**  Every spelling of an integer-suffix (6.4.4.1p1) is recognised by
-    the suffix ladder of `convert_pp_int`, consumed completely, and yields the `l`/`u` flags of
-    its class. -/
+    the suffix ladder of `convert_pp_int` — the if-ladder as translated from the C source, statement by statement
+    (Gen/PpNumGen.lean `convertPpInt_sel2`) —, consumed completely, and yields the `l`/`u` flags of its class. -/
 theorem C11_int_suffix :
     ∀ e ∈ suffixSpellings,
-      matchSuffix (e.1.toList.map (fun ch => BitVec.ofNat 8 ch.toNat)) 0 = (e.1.length, e.2.hasL, e.2.hasU) := by
-  decide
+      ChibiVerif.Gen.PpNum.convertPpInt_sel2 (e.1.toList.map (fun ch => BitVec.ofNat 8 ch.toNat)) 0 =
+        (e.1.length, e.2.hasL, e.2.hasU) := by
+  decide +kernel
 
-/-- **C11 (integer-constant value).**  For every spelling `prefix digits suffix` of an integer constant (hexadecimal
-    `0x`/`0X`, binary `0b`/`0B`, octal with leading `0`, decimal with a non-zero first digit; any digit sequence; any of
-    the 23 suffix spellings) whose value fits 64 bits: `convert_pp_int` accepts the whole token, its value is the value of
-    the digit sequence in that base (`strtoul`'s digit loop) and its type is the ladder's type for that base and suffix. -/
-theorem C11_int_value (base : Nat) (front ds : List Byte) (h : IntSpelling base front ds)
+/-- **C11 (what the integer-constant theorems assume of libc `strtoul`, and that the models satisfy it).**  `convert_pp_int` is
+    translated with `strtoul` as a parameter.  The contract `StrtoulSpec` (C11 7.22.1.4 for a subject sequence without white
+    space and sign: a non-empty run of digits of the base, 2 ≤ base ≤ 16, followed by a byte that is not a digit of the base and
+    not beginning with a `0x` prefix in base 16, gives the value of the run saturated to `ULONG_MAX` and the end pointer after
+    it) holds of the Lean model of glibc's `strtoul` that the check runs against the real libc (`strtoulC`, `stl` operation), and
+    of the digit loop the hand model of `convert_pp_int` uses (`strtoulH`); the two models agree except on a second `0x` prefix. -/
+theorem C11_strtoul_contract :
+    StrtoulSpec strtoulC ∧ StrtoulSpec strtoulH ∧
+    (∀ (p : List Byte) (i base : Nat),
+      ¬ (base = 16 ∧ byteAt p i = 48#8 ∧ (byteAt p (i + 1) = 120#8 ∨ byteAt p (i + 1) = 88#8)) →
+      (strtoulDigits p base (p.length + 1) i 0).2 ≠ i → strtoulC p i base = strtoulH p i base) :=
+  ⟨ChibiVerif.Lemmas.PpInt.strtoulC_spec, ChibiVerif.Lemmas.PpInt.strtoulH_spec, ChibiVerif.Lemmas.PpInt.strtoulC_eq_strtoulH⟩
+
+/-- non-vacuity of the contract's premises: `1f` followed by `u` in base 16 -/
+example : strtoulC [0x31#8, 0x66#8, 0x75#8] 0 16 = (0x1f#64, 2) ∧ strtoulC [48#8, 120#8, 0x31#8] 0 16 = (1#64, 3) := by decide
+
+/-- **C11 (integer-constant value).**  About `convert_pp_int` AS TRANSLATED from tokenize.c (Gen/PpNumGen.lean: prefix ladder,
+    the `strtoul` call, suffix ladder, whole-token test, type ladder), for every `strtoul` that satisfies `StrtoulSpec`, and with
+    the token standing inside its text as the C function is called (`tok->loc = p + pre.length`; the byte after the token is not
+    alphanumeric, which the pp-number scan guarantees): for every spelling `prefix digits suffix` of an integer constant
+    (hexadecimal `0x`/`0X`, binary `0b`/`0B`, octal with leading `0`, decimal with a non-zero first digit; any digit sequence; any
+    of the 23 suffix spellings) whose value fits 64 bits, the function accepts the whole token, its value is the value of the
+    digit sequence in that base and its type is the ladder's type for that base and suffix. -/
+theorem C11_int_value (f : List Byte → Nat → Nat → BitVec 64 × Nat) (hf : StrtoulSpec f) (pre post : List Byte)
+    (hpost : isAlnum (byteAt post 0) = false) (base : Nat) (front ds : List Byte) (h : IntSpelling base front ds)
     (e : String × Suffix) (he : e ∈ suffixSpellings)
     (hv : digitsValue base (ds.map (fun d => hexDigitValue d.toNat)) < 2 ^ 64) :
-    convertPpInt (front ++ ds ++ sfxBytes e.1) =
+    ChibiVerif.Gen.PpNum.convertPpInt f (pre ++ (front ++ ds ++ sfxBytes e.1) ++ post) pre.length
+        (front ++ ds ++ sfxBytes e.1).length =
       some (BitVec.ofNat 64 (digitsValue base (ds.map (fun d => hexDigitValue d.toNat))),
             intLitType base e.2.hasL e.2.hasU (BitVec.ofNat 64 (digitsValue base (ds.map (fun d => hexDigitValue d.toNat))))) :=
-  int_value base front ds h e he hv
+  ChibiVerif.Lemmas.PpInt.int_value_gen f hf pre post hpost base front ds h e he hv
 
-/-- non-vacuity: `0x7fUL` -/
-example : IntSpelling 16 [48#8, 120#8] [0x37#8, 0x66#8] ∧ ("UL", Suffix.ul) ∈ suffixSpellings ∧
-    digitsValue 16 ([0x37#8, 0x66#8].map (fun d => hexDigitValue d.toNat)) = 0x7f :=
-  ⟨.hex _ _ _ (Or.inl rfl) (by decide), by decide, by decide⟩
+/-- non-vacuity: `0x7fUL` inside `x = 0x7fUL;`, read by the translated function with the libc model -/
+example : StrtoulSpec strtoulC ∧ isAlnum (byteAt [0x3B#8] 0) = false ∧
+    IntSpelling 16 [48#8, 120#8] [0x37#8, 0x66#8] ∧ ("UL", Suffix.ul) ∈ suffixSpellings ∧
+    digitsValue 16 ([0x37#8, 0x66#8].map (fun d => hexDigitValue d.toNat)) = 0x7f ∧
+    ChibiVerif.Gen.PpNum.convertPpInt strtoulC
+      ([0x78#8, 0x20#8, 0x3D#8, 0x20#8] ++ ([48#8, 120#8] ++ [0x37#8, 0x66#8] ++ sfxBytes "UL") ++ [0x3B#8]) 4 6 =
+      some (0x7f#64, .ty_ulong) :=
+  ⟨ChibiVerif.Lemmas.PpInt.strtoulC_spec, by decide, .hex _ _ _ (Or.inl rfl) (by decide), by decide, by decide, by decide⟩
 
-/-- **C11 (integer constants, spelling to value and type).**  Corollary of `C11_int_value` and `C11_int_type`: whenever
-    C11 6.4.4.1p5 gives the constant a type, the token gets the value of its digits and (the chibicc representation of)
-    that type. -/
-theorem C11_int_literal (base : Nat) (front ds : List Byte) (h : IntSpelling base front ds)
+/-- **C11 (integer constants, spelling to value and type).**  Corollary of `C11_int_value` and `C11_int_type`, again about the
+    translated `convert_pp_int` in its context: whenever C11 6.4.4.1p5 gives the constant a type, the token gets the value of
+    its digits and (the chibicc representation of) that type. -/
+theorem C11_int_literal (f : List Byte → Nat → Nat → BitVec 64 × Nat) (hf : StrtoulSpec f) (pre post : List Byte)
+    (hpost : isAlnum (byteAt post 0) = false) (base : Nat) (front ds : List Byte) (h : IntSpelling base front ds)
     (e : String × Suffix) (he : e ∈ suffixSpellings)
     (hv : digitsValue base (ds.map (fun d => hexDigitValue d.toNat)) < 2 ^ 64) (t : IntType)
     (ht : litType (base == 10) e.2 (digitsValue base (ds.map (fun d => hexDigitValue d.toNat))) = some t) :
-    convertPpInt (front ++ ds ++ sfxBytes e.1) =
+    ChibiVerif.Gen.PpNum.convertPpInt f (pre ++ (front ++ ds ++ sfxBytes e.1) ++ post) pre.length
+        (front ++ ds ++ sfxBytes e.1).length =
       some (BitVec.ofNat 64 (digitsValue base (ds.map (fun d => hexDigitValue d.toNat))), collapse t) := by
   have hb : base = 2 ∨ base = 8 ∨ base = 10 ∨ base = 16 := by cases h <;> simp
   have hn : (BitVec.ofNat 64 (digitsValue base (ds.map (fun d => hexDigitValue d.toNat)))).toNat =
       digitsValue base (ds.map (fun d => hexDigitValue d.toNat)) := by
     simp only [BitVec.toNat_ofNat]; exact Nat.mod_eq_of_lt hv
-  rw [C11_int_value base front ds h e he hv, C11_int_type base hb e.2 _ t (by rw [hn]; exact ht)]
+  rw [C11_int_value f hf pre post hpost base front ds h e he hv, C11_int_type base hb e.2 _ t (by rw [hn]; exact ht)]
+
+/-- non-vacuity: `4294967296u` is `unsigned long` -/
+example : IntSpelling 10 [] [0x34#8, 0x32#8, 0x39#8, 0x34#8, 0x39#8, 0x36#8, 0x37#8, 0x32#8, 0x39#8, 0x36#8] ∧
+    litType (10 == 10) .u 4294967296 = some .ulong :=
+  ⟨.dec _ _ (by decide) (by decide), by decide⟩
+
+/-- **C11 (the hand model of `convert_pp_int` is the translated function).**  `detectBase` and `matchSuffix` of
+    Model/Literals.lean (interpreters of the ladder *tables*) are, on every text and position, the two if-ladders translated
+    statement by statement, and `convertPpInt` on a token given as its own text is the translated `convert_pp_int` with the digit
+    loop as `strtoul`.  Hence the statement of `C11_int_value` also holds of the hand model (second part), which is what
+    `lexLiteral` — the function the `C11_text_*` theorems are about — calls. -/
+theorem C11_translated_int :
+    (∀ tok : List Byte, ChibiVerif.Literals.convertPpInt tok = ChibiVerif.Gen.PpNum.convertPpInt strtoulH tok 0 tok.length) ∧
+    (∀ p : List Byte, detectBase p = ((ChibiVerif.Gen.PpNum.convertPpInt_sel1 p 0).2, (ChibiVerif.Gen.PpNum.convertPpInt_sel1 p 0).1)) ∧
+    (∀ (p : List Byte) (i : Nat),
+      ChibiVerif.Gen.PpNum.convertPpInt_sel2 p i = (i + (matchSuffix p i).1, (matchSuffix p i).2)) ∧
+    (∀ (base : Nat) (front ds : List Byte), IntSpelling base front ds → ∀ e ∈ suffixSpellings,
+      digitsValue base (ds.map (fun d => hexDigitValue d.toNat)) < 2 ^ 64 →
+      ChibiVerif.Literals.convertPpInt (front ++ ds ++ sfxBytes e.1) =
+        some (BitVec.ofNat 64 (digitsValue base (ds.map (fun d => hexDigitValue d.toNat))),
+              intLitType base e.2.hasL e.2.hasU (BitVec.ofNat 64 (digitsValue base (ds.map (fun d => hexDigitValue d.toNat)))))) := by
+  refine ⟨ChibiVerif.Lemmas.PpInt.translated_int, ChibiVerif.Lemmas.PpInt.detectBase_eq, ChibiVerif.Lemmas.PpInt.matchSuffix_eq, ?_⟩
+  intro base front ds h e he hv
+  rw [ChibiVerif.Lemmas.PpInt.translated_int]
+  have := C11_int_value strtoulH ChibiVerif.Lemmas.PpInt.strtoulH_spec [] [] (by decide) base front ds h e he hv
+  simpa using this
 
 /-- the types the ladder can produce have the size and signedness of the C11 type (LP64) -/
 theorem C11_int_type_repr :
@@ -655,5 +717,81 @@ example : ([0x22#8, 0x61#8, 0x62#8] : List Byte).getLast? ≠ some BSL ∧
     lexLiteral (phase12 ([0x22#8, 0x61#8, 0x62#8] ++ [BSL, CR, LF] ++
         [0x63#8, 0x64#8, 0x22#8, 0x3B#8, 0x78#8, 13#8, 10#8, 0x79#8, 13#8, 10#8])) =
       .ok (.str ⟨.ty_char, [0x61, 0x62, 0x63, 0x64], 6, [0x22#8, 0x61#8, 0x62#8, 0x63#8, 0x64#8, 0x22#8]⟩) := by decide
+
+-- ------------------------------------------------------------------ pp-numbers (6.4.8)
+
+/-- **C11 (pp-number: the scan is maximal munch for the grammar of 6.4.8).**  About the pp-number arm of `tokenize()` AS TRANSLATED
+    (Gen/PpNumGen.lean: the start test `isdigit(*p) || (*p == '.' && isdigit(p[1]))` and the `for (;;)` loop over `e+ e- p+ p-` /
+    alnum / `.`), for every text and every position: the arm is taken exactly when some prefix of the text at that position is a
+    pp-number of 6.4.8 (`PPNumber`, the grammar production by production), and then the token `[start, ppNumberEnd)` lies inside
+    the text, is a pp-number, and no longer prefix is one.
+    Latitude (stated by the parameter `isLetter`): identifier-nondigit is restricted to the 52 Latin letters — `_`, `$`, universal
+    character names and bytes ≥ 0x80 do not continue a pp-number in chibicc (`1_0` is `1` followed by the identifier `_0`; no valid
+    constant contains one of them; Findings/C11.lean `C11_ppnumber_latitude` has the witness that with `_` the scan is not maximal). -/
+theorem C11_ppnumber_maximal (p : List Byte) (start : Nat) :
+    (ChibiVerif.Gen.PpNum.ppNumberStart p start = true ↔ ∃ e, e ≤ p.length ∧ PPNumber isLetter (slice p start e)) ∧
+    (ChibiVerif.Gen.PpNum.ppNumberStart p start = true →
+      start < ChibiVerif.Gen.PpNum.ppNumberEnd p start ∧ ChibiVerif.Gen.PpNum.ppNumberEnd p start ≤ p.length ∧
+      PPNumber isLetter (slice p start (ChibiVerif.Gen.PpNum.ppNumberEnd p start)) ∧
+      ∀ e, e ≤ p.length → PPNumber isLetter (slice p start e) → e ≤ ChibiVerif.Gen.PpNum.ppNumberEnd p start) :=
+  ChibiVerif.Lemmas.PpNum.ppnumber_maximal p start
+
+/-- non-vacuity: in `x=1e+5f+2` the arm is taken at index 2 and the token is `1e+5f` -/
+example : ChibiVerif.Gen.PpNum.ppNumberStart [0x78#8, 0x3D#8, 0x31#8, 0x65#8, 0x2B#8, 0x35#8, 0x66#8, 0x2B#8, 0x32#8] 2 = true ∧
+    ChibiVerif.Gen.PpNum.ppNumberEnd [0x78#8, 0x3D#8, 0x31#8, 0x65#8, 0x2B#8, 0x35#8, 0x66#8, 0x2B#8, 0x32#8] 2 = 7 := by decide
+
+/-- **C11 (the hand model of the pp-number scan and of the literal dispatch is the translated code).**  `ppNumberLen` and the
+    start test of `lexLiteral` (Model/Literals.lean) equal the translated scan on every text, so `lexLiteral` — the function the
+    `C11_text_*` theorems are about — is, on every text, the dispatch over the translated pp-number arm, the translated
+    `convert_pp_int` (with the digit loop as `strtoul`, on the token's own text) and the translated literal readers
+    (`C11_translated_literal_readers`).  What remains hand-written between `tokenize()` and this statement: that the token is
+    handed to `convert_pp_int` inside its text rather than as a copy (covered by `C11_int_value`, which is stated in context,
+    and by the `inta`/`lit` operations of the check), and the order of the arms of `tokenize()`. -/
+theorem C11_translated_ppnumber :
+    (∀ p : List Byte, ppNumberLen p = ChibiVerif.Gen.PpNum.ppNumberEnd p 0) ∧
+    (∀ p : List Byte, (ChibiVerif.Literals.isDigit (byteAt p 0) || (byteAt p 0 = 46#8 && ChibiVerif.Literals.isDigit (byteAt p 1))) =
+      ChibiVerif.Gen.PpNum.ppNumberStart p 0) ∧
+    (∀ p : List Byte, ChibiVerif.Gen.PpNum.ppNumberStart p 0 = true →
+      lexLiteral p =
+        match ChibiVerif.Gen.PpNum.convertPpInt strtoulH (p.take (ChibiVerif.Gen.PpNum.ppNumberEnd p 0)) 0
+            (p.take (ChibiVerif.Gen.PpNum.ppNumberEnd p 0)).length with
+        | some (v, ty) => .ok (.int v ty (ChibiVerif.Gen.PpNum.ppNumberEnd p 0))
+        | none => .ok (.flt (ChibiVerif.Gen.PpNum.ppNumberEnd p 0))) := by
+  refine ⟨ChibiVerif.Lemmas.PpNum.ppNumberLen_eq, ChibiVerif.Lemmas.PpNum.ppStart_eq, ?_⟩
+  intro p hs
+  unfold lexLiteral
+  rw [ChibiVerif.Lemmas.PpNum.ppStart_eq, hs]
+  simp only [if_true, ChibiVerif.Lemmas.PpNum.ppNumberLen_eq, ChibiVerif.Lemmas.PpInt.translated_int]
+  generalize ChibiVerif.Gen.PpNum.convertPpInt strtoulH (p.take (ChibiVerif.Gen.PpNum.ppNumberEnd p 0)) 0
+    (p.take (ChibiVerif.Gen.PpNum.ppNumberEnd p 0)).length = r
+  cases r with
+  | none => rfl
+  | some x => cases x; rfl
+
+example : ChibiVerif.Gen.PpNum.ppNumberStart [0x31#8, 0x32#8, 0x75#8, 0x3B#8] 0 = true ∧
+    lexLiteral [0x31#8, 0x32#8, 0x75#8, 0x3B#8] = .ok (.int 12#64 .ty_uint 3) := by decide
+
+-- ------------------------------------------------------------------ tokenize_file: BOM test and phase order
+
+/-- **C11 (phase order).**  `tokenize_file` AS TRANSLATED from clang's typed AST of tokenize.c (Gen/PpNumGen.lean
+    `tokenizeFileText`: the `memcmp` BOM test with its literal and lengths, then `canonicalize_newline`,
+    `remove_backslash_newline`, `convert_universal_chars` in the order of the calls, each the in-place loop of
+    Gen/LitReadersGen.lean; nothing else touches the text before `tokenize(new_file(…, p))`), applied to what `read_file`
+    returns (`ensureFinalNewline`, hand model of the libc stream calls), is — for every file content without NUL — exactly the
+    composition `phase12` that every `C11_text_*` theorem is about; no store of the three loops leaves the text; and the order
+    of the calls is the one 5.1.1.2 prescribes (line ends, then splices, then — a chibicc choice — universal character names). -/
+theorem C11_phase_order :
+    (∀ s : List Byte, (0#8 : Byte) ∉ s → fileText s = some (phase12 s)) ∧
+    (∀ b : List Byte, ChibiVerif.Gen.PpNum.tokenizeFileText b =
+      (ChibiVerif.Gen.LitReaders.canonicalizeNewline (skipBOM b) >>= ChibiVerif.Gen.LitReaders.removeBackslashNewline >>=
+        ChibiVerif.Gen.LitReaders.convertUniversalChars)) ∧
+    ChibiVerif.Gen.PpNum.tokenizeFileSteps =
+      ["memcmp:3", "canonicalize_newline", "remove_backslash_newline", "convert_universal_chars"] :=
+  ⟨ChibiVerif.Lemmas.Phases.phase_order, ChibiVerif.Lemmas.Phases.tokenizeFileText_eq, by decide⟩
+
+/-- non-vacuity: BOM, `"é"` written as a UCN, CR LF, a splice -/
+example : (0#8 : Byte) ∉ ([0xEF#8, 0xBB#8, 0xBF#8, 0x22#8, 92#8, 0x75#8, 0x30#8, 0x30#8, 0x65#8, 0x39#8, 0x22#8, 13#8, 10#8, 0x78#8, 92#8, 10#8, 0x79#8] : List Byte) ∧
+    fileText [0xEF#8, 0xBB#8, 0xBF#8, 0x22#8, 92#8, 0x75#8, 0x30#8, 0x30#8, 0x65#8, 0x39#8, 0x22#8, 13#8, 10#8, 0x78#8, 92#8, 10#8, 0x79#8] =
+      some [0x22#8, 0xC3#8, 0xA9#8, 0x22#8, 10#8, 0x78#8, 0x79#8, 10#8, 10#8] := by decide
 
 end ChibiVerif.Props.C11
